@@ -17,6 +17,7 @@ STRATA = [
     ("warm", 200, 4000),
     ("lns", 150, 3000),
     ("multi", 150, 3000),
+    ("combo", 500, 8000),
     ("equality", 150, 3000),
     ("infeasible-int", 150, 3000),
     ("max-nodes", 150, 3000),
@@ -230,6 +231,53 @@ def gen(stratum, rng, tier):
     elif stratum == "multi":
         _bound_rows(rng, n, A, b)
         configs = [{"solution_limit": k} for k in rng.sample([2, 3, 4, 5], 2)] + [{"solution_limit": 3, "heuristics": False}]
+    elif stratum == "combo":
+        # the optional parameters together: warm starts that are integer-feasible but sub-optimal, or an integer
+        # point moved by less than the caller's gap_tol (fractional / slightly outside a row), with solution pools,
+        # relative gaps, heuristics on/off, LNS and node limits - "warm starts, heuristics and LNS never change
+        # the verdicts" is a statement about every combination, and the tolerances are different things
+        if rng.random() < 0.4:
+            n, m = rng.randint(1, 2), rng.randint(1, 2)
+            c, A, b = _base(rng, n, m)
+            ints = sorted(rng.sample(range(n), rng.randint(1, n)))
+        _bound_rows(rng, n, A, b, umax=6, binary=rng.random() < 0.2)
+        if rng.random() < 0.3:
+            # scaled rows (20x <= 41): integer points with much slack in absolute terms
+            k = rng.randrange(len(A))
+            f = rng.choice([5, 10, 20])
+            A[k] = [f * v for v in A[k]]
+            b[k] = f * b[k] + rng.randint(0, f - 1)
+        pts = []
+        for _ in range(60):
+            x = [rng.randint(0, 6) for _ in range(n)]
+            if all(sum(a * v for a, v in zip(row, x)) <= bi for row, bi in zip(A, b)):
+                pts.append(x)
+        pts.sort(key=lambda x: sum(ci * v for ci, v in zip(c, x)), reverse=minimize)  # worst first
+        configs = [{}]
+        for _ in range(5):
+            cfg = {}
+            gap = rng.choice([None, None, 0.01, 0.05, 0.05, 0.2])
+            if gap is not None:
+                cfg["gap_tol"] = gap
+            r = rng.random()
+            if pts and r < 0.8:
+                w = [float(v) if rng.random() < 0.3 else v for v in rng.choice(pts[: max(1, len(pts) // 2)] if rng.random() < 0.6 else pts)]
+                if rng.random() < 0.5:
+                    d = rng.choice([0.004, 0.03, 0.04, 0.15]) if gap is None else gap * rng.choice([0.5, 0.8, 0.99])
+                    j = rng.randrange(n)
+                    better = (c[j] < 0) == minimize  # moving x_j up improves the objective
+                    w[j] = w[j] + d if (better or w[j] < d) else w[j] - d
+                cfg["warm_start"] = w
+            if rng.random() < 0.5:
+                cfg["solution_limit"] = rng.choice([2, 2, 3, 4])
+            if rng.random() < 0.3:
+                cfg["heuristics"] = False
+            if rng.random() < 0.25:
+                cfg["lns_iterations"] = rng.randint(1, 3)
+                cfg["seed"] = rng.randint(0, 99)
+            if rng.random() < 0.15:
+                cfg["max_nodes"] = rng.choice([1, 2, 3, 5, 8])
+            configs.append(cfg)
     elif stratum == "equality":
         row = [rng.choice([1, 1, 2, 3, 0]) for _ in range(n)]
         beta = rng.randint(1, 7)
